@@ -41,13 +41,24 @@ def build_harness():
     """Rebuild the harness against /repo's current working tree (-tags verif).
     Returns (path, sha256 of the binary)."""
     os.makedirs(os.path.join(HARNESS, "bin"), exist_ok=True)
-    out = os.path.join(HARNESS, "bin", "harness")
+    # checks may run concurrently: build to a private file, then publish it under its
+    # content hash (atomic rename; identical builds coincide)
+    tmp = os.path.join(HARNESS, "bin", "harness.build%d" % os.getpid())
     t0 = time.time()
-    p = subprocess.run(["go", "build", "-tags", "verif", "-o", out, "."], cwd=HARNESS, env=GOENV,
+    p = subprocess.run(["go", "build", "-tags", "verif", "-o", tmp, "."], cwd=HARNESS, env=GOENV,
                        stdout=subprocess.PIPE, stderr=subprocess.STDOUT, text=True)
     if p.returncode != 0:
         raise Inconclusive("harness build failed:\n" + p.stdout[-4000:])
-    h = hashlib.sha256(open(out, "rb").read()).hexdigest()
+    h = hashlib.sha256(open(tmp, "rb").read()).hexdigest()
+    out = os.path.join(HARNESS, "bin", "harness-" + h[:16])
+    os.replace(tmp, out)
+    for f in os.listdir(os.path.join(HARNESS, "bin")):        # drop binaries of older trees
+        fp = os.path.join(HARNESS, "bin", f)
+        try:
+            if f.startswith("harness") and fp != out and time.time() - os.path.getmtime(fp) > 3 * 3600:
+                os.remove(fp)
+        except OSError:
+            pass
     log("harness built in %.1fs (%s)" % (time.time() - t0, h[:12]))
     return out, h
 
